@@ -1,4 +1,6 @@
 import MpfVerif.Lemmas.LogicBlock
+import MpfVerif.Lemmas.LogicBlockGen
+import MpfVerif.Lemmas.StateMachine
 /-!
 # C18 — logic blocks count, accrue and sequence exactly as specified
 
@@ -234,10 +236,13 @@ theorem persist_restores (y : Sys) (hp : y.persist = true) (hl : y.s.loaded = tr
   refine ⟨by simp [xstep, stopMode, hl, hp, lookupSnap], fun y2 h2 hl2 hs => ?_⟩
   simp [xstep, startMode, hl2, h2, hs, snapOf]
 
-/-- **Players are isolated**: no op changes the stored state of a player who is not up. -/
-theorem other_players_untouched (y : Sys) (x : XOp) (q : Nat) (hq : q ≠ y.cur) :
+/-- **Players are isolated**: within a game (every op except the end of the game, which removes the players
+themselves - `new_game_starts_fresh`) no op changes the stored state of a player who is not up. -/
+theorem other_players_untouched (y : Sys) (x : XOp) (q : Nat) (hq : q ≠ y.cur) (hg : x ≠ .newGame) :
     lookupSnap q (xstep y x).1.saved = lookupSnap q y.saved := by
   cases x with
+  | newGame => exact absurd rfl hg
+  | ctlNone => rfl
   | core o =>
     by_cases hc : o = .clock
     · subst hc; simp only [xstep]; split <;> rfl
@@ -260,6 +265,31 @@ theorem other_players_untouched (y : Sys) (x : XOp) (q : Nat) (hq : q ≠ y.cur)
     · rfl
   | startMode p => simp only [xstep]; rw [(startMode_frame y p).2.2]
 
+/-- **Game end, second game**: after the game ended (block's mode stopped) nobody has a stored state any more, so in
+the next game every player - whatever the previous game left - gets a fresh block: start value as the template
+evaluates then, not completed, enabled iff `start_enabled`, timeout armed iff enabled; while a mode that merely
+stops and starts again within the game (next ball, extra ball: `startMode` for the same player) restores
+(`persist_restores`) and does NOT arm the timeout of a restored enabled block (the model follows the code). -/
+theorem new_game_starts_fresh (y : Sys) (p : Nat) (hl : y.s.loaded = false) :
+    let y1 := (xstep y .newGame).1
+    (∀ q, lookupSnap q y1.saved = none) ∧ y1.cur = 0 ∧ y1.s = y.s ∧ y1.pending = y.pending ∧
+    (xstep y1 (.startMode p)).1.s = (load y.c y.s).1 ∧ (xstep y1 (.startMode p)).2 = (load y.c y.s).2 ∧
+    (load y.c y.s).1.completed = false ∧ (load y.c y.s).1.enabled = y.c.startEnabled ∧
+    (load y.c y.s).1.timeoutDue = (if y.c.startEnabled && decide (y.c.timeout ≠ 0) then some (y.s.now + y.c.timeout) else none) := by
+  refine ⟨fun q => by simp [xstep, hl, lookupSnap], by simp [xstep, hl], by simp [xstep, hl], by simp [xstep, hl],
+    by simp [xstep, startMode, hl, lookupSnap], by simp [xstep, startMode, hl, lookupSnap], ?_, ?_, ?_⟩
+  · cases h : y.c.startEnabled <;> simp [load, enable, timerStart, h] <;> split <;> rfl
+  · cases h : y.c.startEnabled <;> simp [load, enable, timerStart, h] <;> split <;> rfl
+  · cases h : y.c.startEnabled <;> simp [load, enable, timerStart, h]
+    split <;> simp_all
+
+/-- a restored enabled block has no timeout pending although `logic_block_timeout` is configured (kernel-evaluated
+witness of the behaviour described in `persist_restores`; observed on the real device, reported, not a clause of C18) -/
+theorem restored_block_timeout_not_rearmed_witness :
+    let c : Cfg := { kind := .counter, start := 0, goal := some 9, timeout := 4, startEnabled := true }
+    let y := (xrun (xinit c true false) [.startMode 0, .core .count, .stopMode, .startMode 0]).1
+    y.s.enabled = true ∧ y.s.value = 1 ∧ y.s.timeoutDue = none := by decide
+
 /-- **advance_random is a hit on an open step**: whatever open step the random choice names, the effect is that of
 a hit on that step (so `accrual_any_order` and the completion theorems cover it); a step that is already set is never
 hit again. -/
@@ -267,6 +297,86 @@ theorem advance_random_hits_an_open_step (c : Cfg) (s : St) (k : Nat) (hk : c.ki
     (getFlag s.flags k = false → step c s (.advr k) = step c s (.hit k)) ∧
     (getFlag s.flags k = true → step c s (.advr k) = (s, [])) := by
   constructor <;> intro hg <;> simp [step, stepLoaded, hl, hk, hg]
+
+/-! ## the hand model of a counter is what the source says (translator tie) -/
+
+/-- a counter reached from boot by any op sequence never carries accrual flags (the side condition of the tie) -/
+theorem counter_flags_stay_empty (c : Cfg) (ops : List Op) (hk : c.kind = .counter) : (run c (init c) ops).1.flags = [] := by
+  have key : ∀ (ops : List Op) (s : St), s.flags = [] → (run c s ops).1.flags = [] := by
+    intro ops
+    induction ops with
+    | nil => intro s h; exact h
+    | cons op r ih => intro s h; exact ih _ (counter_step_flags c s op hk h)
+  exact key ops _ (by simp [init, startFlags, hk])
+
+/-- **The model's counter methods are the source's** (`mpf/devices/logic_blocks.py` as it is now, regenerated into
+`Gen/LogicBlockOps.lean` on every check): in every state of a present counter, running the *generated* program of
+`Counter.count`, `LogicBlock.enable / disable / reset / restart / complete`, `Counter.check_complete`,
+`LogicBlock._logic_block_timeout` (at its deadline, the delay manager having removed the delay) and
+`Counter.stop_ignoring_hits` (at the window deadline) in the deep embedding - attribute and player-state store,
+configuration and templates as data, delays and event posts as a log of effects with their hand-given meaning `applyEff` -
+yields exactly the state and exactly the list of posted events that the hand model's `step` computes for the corresponding
+op; no logged action is without meaning, no `ignore_hits` is left without its closing delay, nothing raises.  Every theorem
+above about `step` / `run` therefore speaks about these methods of the source. -/
+theorem counter_methods_refine_source (c : Cfg) (s : St) (hk : c.kind = .counter) (hf : s.flags = []) (hl : s.loaded = true) :
+    genRun c s Gen.LogicBlockOps.count [] = (step c s .count, false, false, some .none) ∧
+    genRun c s Gen.LogicBlockOps.enable [] = (step c s .enable, false, false, some .none) ∧
+    genRun c s Gen.LogicBlockOps.disable [] = (step c s .disable, false, false, some .none) ∧
+    genRun c s Gen.LogicBlockOps.reset [] = (step c s .reset, false, false, some .none) ∧
+    genRun c s Gen.LogicBlockOps.restart [] = (step c s .restart, false, false, some .none) ∧
+    genRun c s Gen.LogicBlockOps.complete [] = (complete c s, false, false, some .none) ∧
+    genRun c s Gen.LogicBlockOps.check_complete [] = ((s, []), false, false, some (.bool (goalReached c s.value))) ∧
+    (s.timeoutDue = some s.now →
+      genRun c { s with timeoutDue := none } Gen.LogicBlockOps.p_logic_block_timeout [] = (step c s .fireT, false, false, some .none)) ∧
+    (s.windowUntil = some s.now →
+      genRun c s Gen.LogicBlockOps.stop_ignoring_hits [] = (step c s .fireW, false, false, some .none)) := by
+  have hs : ∀ o, step c s o = stepLoaded c s o := fun o => step_loaded c s o hl
+  refine ⟨?_, ?_, ?_, ?_, ?_, complete_gen c s hk hf, check_complete_gen c s, fun hd => ?_, fun hd => ?_⟩
+  · rw [hs]; simp only [stepLoaded, hk]; exact count_gen c s hk hf
+  · rw [hs]; exact enable_gen c s
+  · rw [hs]; exact disable_gen c s
+  · rw [hs]; exact reset_gen c s hk hf
+  · rw [hs]; exact restart_gen c s hk hf
+  · rw [hs]; exact timeout_gen c s hk hf hd
+  · rw [hs]; exact stop_ignoring_gen c s hd
+
+/-- hence, over every op sequence from boot: the `count` of the source, run in the state the sequence leads to, is the
+model's `count` step there (the flags side condition is discharged by `counter_flags_stay_empty`) - and in particular,
+in the source, a hit on a disabled counter or inside the window writes nothing, posts nothing and arms nothing -/
+theorem reachable_count_refines_source (c : Cfg) (ops : List Op) (hk : c.kind = .counter)
+    (hl : (run c (init c) ops).1.loaded = true) :
+    genRun c (run c (init c) ops).1 Gen.LogicBlockOps.count [] = (step c (run c (init c) ops).1 .count, false, false, some .none) ∧
+    (accepted (run c (init c) ops).1 = false →
+      genRun c (run c (init c) ops).1 Gen.LogicBlockOps.count [] = (((run c (init c) ops).1, []), false, false, some .none)) := by
+  have h := (counter_methods_refine_source c _ hk (counter_flags_stay_empty c ops hk) hl).1
+  exact ⟨h, fun ha => by rw [h, count_rejected c _ ha]⟩
+
+/-! ## state machine devices (not named by the property's text: model facts backing the comparison run) -/
+
+/-- **A transition whose source does not match is ignored** (at dispatch start): an event for which no transition has the
+current state among its sources changes nothing and posts nothing - in every state, also while the owning mode is not
+running. -/
+theorem sm_unmatched_event_ignored (c : StateMachine.Cfg) (s : StateMachine.St) (k : Nat)
+    (hn : ∀ i, s.cur = some i → ∀ t ∈ c.trans, i ∈ t.src → k ∉ t.events) : StateMachine.step c s (.ev k) = (s, []) := by
+  cases hc : s.cur with
+  | none => simp [StateMachine.step, hc]
+  | some i =>
+    simp only [StateMachine.step, hc, StateMachine.no_match i k c.trans 0 (hn i hc), StateMachine.takeAll]
+    cases s; simp_all
+
+def smTwo : StateMachine.Cfg :=
+  { nStates := 3, onEv := [true, true, true], offEv := [true, true, true], trans := [⟨[0], 1, [0], true⟩, ⟨[0], 2, [0], true⟩] }
+def smChain : StateMachine.Cfg :=
+  { nStates := 3, onEv := [true, true, true], offEv := [true, true, true], trans := [⟨[0], 1, [0], true⟩, ⟨[1], 2, [0], true⟩] }
+
+/-- observed on the real device and reproduced by the model (kernel-evaluated): with two transitions on one event out of
+one state, both handlers run - the second one out of a state that is NOT among its sources (st0 -e0-> st1, then the stale
+handler st0 -e0-> st2 fires from st1), while a chain st0 -e0-> st1 -e0-> st2 advances only one state per event. -/
+theorem sm_stale_handler_witness :
+    (StateMachine.step smTwo (StateMachine.init smTwo true) (.ev 0)).1.cur = some 2 ∧
+    (StateMachine.step smTwo (StateMachine.init smTwo true) (.ev 0)).2 =
+      [.stopped 0, .transitioning 0, .started 1, .stopped 1, .transitioning 1, .started 2] ∧
+    (StateMachine.step smChain (StateMachine.init smChain true) (.ev 0)).1.cur = some 1 := by decide
 
 /-! ## the hypotheses are satisfiable on concrete, non-trivial runs (kernel evaluation) -/
 
@@ -302,6 +412,11 @@ example : (xrun (xinit pdemo true false) [.startMode 0, .core .count, .stopMode,
       .stopMode, .startMode 0]).1.s.value = 3 ∧
     (xrun (xinit pdemo true false) [.startMode 0, .core .count, .stopMode, .startMode 1]).1.s.value = 2 ∧
     (xrun (xinit pdemo true false) [.startMode 0, .core .count, .stopMode, .startMode 1]).1.persist = true := by decide
+
+/-- the hypotheses of the tie hold on the demo counter after a non-trivial run -/
+example : demo.kind = .counter ∧ (run demo (init demo) [.enable, .count, .clock, .clock, .fireW]).1.flags = [] ∧
+    (run demo (init demo) [.enable, .count, .clock, .clock, .fireW]).1.loaded = true ∧
+    accepted (run demo (init demo) [.enable, .count, .clock]).1 = false := by decide
 
 def demoAcc : Cfg := { kind := .accrual, steps := 3, startEnabled := true }
 example : allTrue (marks (init demoAcc).flags [2, 0]) = false ∧ (init demoAcc).enabled = true := by decide
